@@ -162,6 +162,7 @@ structure TState where
   near : Bool
   ok : Bool := true              -- monitor: every explored node passed `nodeCheck`
   maxIt : Nat := 0               -- monitor: largest pivot count of a single node LP
+  negTie : Bool := false         -- monitor: a new incumbent's objective was the NEGATED bound of its node
   deriving Inhabited
 
 structure MilpOut where
@@ -173,6 +174,7 @@ structure MilpOut where
   near : Bool
   ok : Bool := true              -- monitor: every explored node passed `nodeCheck`
   maxIt : Nat := 0               -- monitor: largest pivot count of a single node LP
+  negTie : Bool := false         -- monitor: a new incumbent's objective was the NEGATED bound of its node
   deriving Inhabited
 
 inductive Iter where
@@ -244,18 +246,25 @@ def gapArg (sign bound : Rat) : Rat := if bound != 0 then bound / sign else 0
 def bestSol (best : Option (Vec × Rat)) (sol : Vec) : Vec := match best with | some (b, _) => b | none => sol
 def bestObj (best : Option (Vec × Rat)) (obj : Rat) : Rat := match best with | some (_, bo) => bo | none => obj
 
+/-- coverage monitor for the `gap` exit: the new incumbent's objective is non-zero and equals the negation of the
+node's bound converted back to the caller's sense (a sign slip in that conversion would read the gap as closed) -/
+def negTieAt (M : MilpIn) (node : TNode) (r : NodeRes) : Bool :=
+  r.obj != 0 && (r.obj == -(gapArg M.sign node.bound) || r.obj == -node.bound || r.obj == node.bound) &&
+    r.obj != gapArg M.sign node.bound
+
 /-- the integral branch of the loop body: solution collection, incumbent update, early returns -/
 def integralStep (M : MilpIn) (cfg : MilpCfg) (s1 : TState) (node : TNode) (r : NodeRes) : Iter :=
   let sol := r.sol
   let sols := collectSols cfg s1.sols sol
   if isNewSol cfg s1.sols sol && decide (sols.length ≥ cfg.solutionLimit) then
-    .done ⟨.FEASIBLE, some (bestSol s1.best sol), some (bestObj s1.best r.obj), s1.explored, sols, s1.near, s1.ok, s1.maxIt⟩
+    .done ⟨.FEASIBLE, some (bestSol s1.best sol), some (bestObj s1.best r.obj), s1.explored, sols, s1.near, s1.ok, s1.maxIt, s1.negTie⟩
   else if improvesBest M.sign s1.best r.obj then
     let gap := computeGap r.obj (gapArg M.sign node.bound)
     let s3 : TState := { s1 with sols := sols, best := offerBest M.sign s1.best sol r.obj,
-                                 near := s1.near || nearEq gap cfg.gapTol }
+                                 near := s1.near || nearEq gap cfg.gapTol
+                                 negTie := s1.negTie || negTieAt M node r }
     if decide (gap < cfg.gapTol) && cfg.solutionLimit == 1 then
-      .done ⟨.OPTIMAL, some sol, some r.obj, s3.explored, [], s3.near, s3.ok, s3.maxIt⟩
+      .done ⟨.OPTIMAL, some sol, some r.obj, s3.explored, [], s3.near, s3.ok, s3.maxIt, s3.negTie⟩
     else .cont s3
   else .cont { s1 with sols := sols, best := offerBest M.sign s1.best sol r.obj }
 
@@ -284,10 +293,10 @@ def bnbIter (M : MilpIn) (cfg : MilpCfg) (s : TState) : Iter :=
 /-- the tail of `solve_milp` after the loop -/
 def bnbFinish (cfg : MilpCfg) (s : TState) : MilpOut :=
   match s.best with
-  | none => ⟨if s.tree.isEmpty then .INFEASIBLE else .MAX_ITER, none, none, s.explored, [], s.near, s.ok, s.maxIt⟩
+  | none => ⟨if s.tree.isEmpty then .INFEASIBLE else .MAX_ITER, none, none, s.explored, [], s.near, s.ok, s.maxIt, s.negTie⟩
   | some (x, bo) =>
     let status := if s.tree.isEmpty then Status.OPTIMAL else .FEASIBLE
-    ⟨status, some x, some bo, s.explored, if cfg.solutionLimit > 1 then s.sols else [], s.near, s.ok, s.maxIt⟩
+    ⟨status, some x, some bo, s.explored, if cfg.solutionLimit > 1 then s.sols else [], s.near, s.ok, s.maxIt, s.negTie⟩
 
 /-- the `while` loop, `fuel` passes at most (`2·max_nodes + 2` always suffice) -/
 def bnbLoop (M : MilpIn) (cfg : MilpCfg) : Nat → TState → MilpOut
@@ -323,17 +332,17 @@ def initState (M : MilpIn) (cfg : MilpCfg) (root : NodeRes) : TState :=
    root.near || fracTie root.sol M.ints cfg.eps ||
      (M.ints.any fun j => nearEq (vget root.sol j) (-cfg.eps) || nearEq (vget root.sol j) (1 + cfg.eps)),
    -- the root bound comes from the first root solve: it is node-checked here
-   nodeCheck M cfg.eps (lower0 M) (upper0 M) root, root.iters⟩
+   nodeCheck M cfg.eps (lower0 M) (upper0 M) root, root.iters, false⟩
 
 /-- `solve_milp(c, A, b, integers, …, heuristics=False)` -/
 def solveMilp (M : MilpIn) (cfg : MilpCfg) : MilpOut :=
   let root := solveNode M cfg.eps cfg.maxIter (lower0 M) (upper0 M)
   if root.status == .INFEASIBLE then
-    ⟨.INFEASIBLE, none, none, 0, [], root.near, nodeCheck M cfg.eps (lower0 M) (upper0 M) root, root.iters⟩ else
-  if root.status == .UNBOUNDED then ⟨.UNBOUNDED, none, none, 0, [], root.near, true, root.iters⟩ else
+    ⟨.INFEASIBLE, none, none, 0, [], root.near, nodeCheck M cfg.eps (lower0 M) (upper0 M) root, root.iters, false⟩ else
+  if root.status == .UNBOUNDED then ⟨.UNBOUNDED, none, none, 0, [], root.near, true, root.iters, false⟩ else
   match mostFractional root.sol M.ints cfg.eps with
   | none => ⟨.OPTIMAL, some root.sol, some root.obj, 1, [], root.near || fracTie root.sol M.ints cfg.eps,
-      root.status == .OPTIMAL && nodeCheck M cfg.eps (lower0 M) (upper0 M) root, root.iters⟩
+      root.status == .OPTIMAL && nodeCheck M cfg.eps (lower0 M) (upper0 M) root, root.iters, false⟩
   | some _ => bnbLoop M cfg (2 * cfg.maxNodes + 2) (initState M cfg root)
 
 end Solvor.Lp
